@@ -185,6 +185,14 @@ func genModel(r *common.Rng, size int) *model {
 			for k := range vals {
 				vals[k] = len(items) - k // declaration order opposite to numeric order
 			}
+			// two names for one value (legal in Sysl as in protobuf): whatever inverts the name->value map must not
+			// let the iteration order pick the surviving name
+			if len(items) >= 2 && r.Chance(1, 2) {
+				vals[1] = vals[0]
+				if len(items) >= 4 && r.Bool() {
+					vals[len(vals)-1] = vals[len(vals)-2]
+				}
+			}
 			a.Enums = append(a.Enums, enum{Name: e, Items: items, Vals: vals})
 		}
 		m.Apps = append(m.Apps, a)
